@@ -1,6 +1,8 @@
-//! Interface family of the C09 engine: generated traits (`family`), the async_trait member
-//! (`asyncfam`) and the hand-written recording / observing helpers (`support`).
-#[allow(unused_mut, unused_variables, non_snake_case, clippy::all)]
+//! Interface family of the C09 engine: the alphabets as data (`family`), the async_trait member
+//! (`asyncfam`) and the hand-written recording / observing helpers (`support`). The traits
+//! generated from the alphabets are compiled in the shard crates `shards/s*` (same generator,
+//! `gen.rs`), so that editing the engine does not re-expand ~2700 exported methods and so that
+//! they compile in parallel.
 pub mod family;
 pub mod asyncfam;
 pub mod support;
